@@ -27,6 +27,13 @@ def _single_path_return(fn):
     if len(fn.exits()) != 1:
         return None
     d = fn.defs().get(0, [])
+    if len(d) == 2:
+        # `if c { a } else { b }` / a two-armed match as the whole body: one value, if-converted
+        try:
+            v = X.Rec(fn, ite=True).if_converted(0, 0)
+        except Exception:
+            v = None
+        return norm(v) if v is not None else None
     if len(d) != 1:
         return None
     bi, si, x = d[0]
@@ -121,6 +128,16 @@ class RCanon(iteralg.Canon):
             name = S1[1]
             if name.endswith(('Iterator::cloned', 'Iterator::copied')) and len(S1[2]) == 1:
                 return self.elem_of(S1[2][0], L, pos)
+            if name.endswith('StripedScores::iter') and len(S1[2]) == 1:
+                # one score per valid position, in position order (scores.rs Iter: indices 0..max_index)
+                Xs = self.canon(S1[2][0])
+                return ('at', Xs, pos if pos is not None else ('pos', L)), [('maxidx', Xs)]
+            if name.endswith(iteralg.ITER) and len(S1[2]) == 1:
+                inner = norm(S1[2][0])
+                inner = self._resolve_local(inner)
+                if inner[0] == 'call' and inner[1].endswith('Iterator::collect') and len(inner[2]) == 1:
+                    # a pipeline collected into a Vec and iterated again yields the same elements in the same order
+                    return self.elem_of(inner[2][0], L, pos)
             if name.endswith('Iterator::map') and len(S1[2]) == 2:
                 r = self.elem_of(S1[2][0], L, pos)
                 if r is None:
@@ -282,6 +299,17 @@ def forall_facts(db, f, R, C, block):
     from . import guards as G
     out = []
     for r in G.relations(f, R, block):
+        if r[0] == 'false' and isinstance(r[1], tuple) and r[1][0] == 'call' and r[1][1].endswith('Iterator::any') and len(r[1][2]) == 2:
+            # !it.any(p)  =  for every element, !p
+            L = _fresh()
+            el = C.elem_of(r[1][2][0], L)
+            body = apply_fn(db, r[1][2][1], [el[0]]) if el is not None else None
+            if body is not None:
+                for alt in [G.expr_alternatives(C.canon(body), False)]:
+                    if len(alt) == 1:
+                        for q in alt[0]:
+                            out.append(dict(rel=q, L=L, pos={L}, extents={L: el[1]}, how='not-any'))
+            continue
         if r[0] == 'true' and isinstance(r[1], tuple) and r[1][0] == 'call' and r[1][1].endswith('Iterator::all') and len(r[1][2]) == 2:
             L = _fresh()
             el = C.elem_of(r[1][2][0], L)
@@ -321,3 +349,48 @@ def forall_facts(db, f, R, C, block):
                 ids = pos_ids(rel)
                 out.append(dict(rel=rel, L=L['header'], pos=ids, extents={i: C.extents.get(i) for i in ids}, how='loop'))
     return out
+
+
+def completed_before(f, header, block):
+    """`block` is only reached after the loop with this header ran to the exhaustion of its iterator: every other exit of the loop
+    (early return, break) cannot reach `block`."""
+    Ls = [L for L in f.loops() if L['header'] == header]
+    if not Ls or block in Ls[0]['body'] or not f.dominates(header, block):
+        return False
+    L = Ls[0]
+    ex = _exhaustion_exit(f, L)
+    if ex is None:
+        return False
+    can = f.postdominators()
+
+    def reaches(a, b):
+        seen, st = set(), [a]
+        while st:
+            x = st.pop()
+            if x in seen:
+                continue
+            seen.add(x)
+            st.extend(f.succs(x))
+        return b in seen
+    others = [(a, b) for a, b in L['exits'] if (a, b) != ex and b in can and reaches(b, block)]
+    return not others and reaches(ex[1], block)
+
+
+def sum_view(db, f, R, C, e, block):
+    """e denotes a sum that is complete when `block` is reached: an iterator pipeline (`sum`, `fold`), or the accumulator of a loop that
+    ran to exhaustion before `block`.  Returns the canonical reduction dict (op, init, term, L, extents) or None."""
+    e = norm(e)
+    r = of_expr(C, e)
+    if r is not None:
+        return r
+    if e[0] == 'v':
+        ls = [l_ for l_ in loops_in(db, f, R, C) if l_['local'] == e[1] and l_['every_iteration'] and l_['nested'] == 1]
+        if len(ls) == 1 and (ls[0]['single_exit'] or completed_before(f, ls[0]['header'], block)):
+            r = dict(ls[0])
+            ids = pos_ids(r['term'])
+            if len(ids) != 1:
+                return None
+            r['L'] = next(iter(ids))
+            r['extents'] = C.extents.get(r['L'])
+            return r
+    return None
